@@ -266,65 +266,96 @@ func (c *Ctx) c02Reverse() {
 	build := "(*" + pBld + "assignmentBuilder).build"
 	ctors := c.CallsIn(cf, nab, false)
 	builds := c.CallsIn(cf, build, false)
-	r.Check("C02-3", FnKey(cf)+":two-branches", c.Pos(cf.Pos()), len(ctors) == 2 && len(builds) == 2, sprintf("expected a builder and a build call on each side of the Reverse test, found %d/%d", len(ctors), len(builds)))
-	if len(ctors) != 2 || len(builds) != 2 {
+	r.Check("C02-3", FnKey(cf)+":has-builder", c.Pos(cf.Pos()), len(ctors) >= 1 && len(ctors) == len(builds), sprintf("expected one build call per assignment builder, found %d builders / %d builds", len(ctors), len(builds)))
+	if len(ctors) == 0 || len(ctors) != len(builds) {
 		return
 	}
-	// origin of a Var cell: the createVar call stored into it
-	cellOrigin := func(v ssa.Value) *core.Term {
+	rc := c.Reach(cf)
+	// origin of a Var value: the signature element given to createVar
+	elemOf := func(v ssa.Value) string {
+		t := c.O.Of(v)
 		if u, ok := v.(*ssa.UnOp); ok {
 			if al, ok := u.X.(*ssa.Alloc); ok && al.Referrers() != nil {
 				for _, rf := range *al.Referrers() {
 					if st, ok := rf.(*ssa.Store); ok && st.Addr == al {
-						return c.O.Of(st.Val)
+						t = c.O.Of(st.Val)
 					}
 				}
 			}
 		}
-		return c.O.Of(v)
+		if t.IsCallTo("(*" + pBld + "FunctionBuilder).createVar") {
+			return t.Args[1].String()
+		}
+		return "?" + t.String()
 	}
-	type side struct{ lvar, rvar, lop, rop string }
-	var sides []side
-	var revs []bool
-	for i := range ctors {
-		// pair builder and build in the same block
+	cases := func(v ssa.Value, at ssa.Instruction) []core.ValueCase {
+		cs := rc.Cases(v)
+		for i := range cs {
+			if cs[i].Cond == nil {
+				cs[i].Cond = c.ReachOf(at)
+			} else {
+				cs[i].Cond = core.And(cs[i].Cond, c.ReachOf(at))
+			}
+		}
+		return cs
+	}
+	rev := c.M(true, isField(fldReverse))
+	nrev := c.M(false, isField(fldReverse))
+	seenRev, seenFwd := false, false
+	for i, ct := range ctors {
+		// the build call on this builder
 		var b Site
 		found := false
 		for _, bb := range builds {
-			if bb.Instr.Block() == ctors[i].Instr.Block() {
+			if bb.Args()[0] == ct.Instr.(ssa.Value) {
 				b, found = bb, true
 			}
 		}
 		if !found {
-			r.Check("C02-3", FnKey(cf)+":paired", c.Pos(ctors[i].Pos()), false, "builder creation and build call are not in the same branch")
-			return
+			r.Check("C02-3", sprintf("%s:builder%d:paired", FnKey(cf), i+1), c.Pos(ct.Pos()), false, "no build call on this assignment builder")
+			continue
 		}
-		l := cellOrigin(ctors[i].Args()[2])
-		rr := cellOrigin(ctors[i].Args()[3])
-		elem := func(t *core.Term) string {
-			if t.IsCallTo("(*"+pBld+"FunctionBuilder).createVar") {
-				return t.Args[1].String()
+		for side, idx := range map[string][2]int{"left": {2, 1}, "right": {3, 2}} {
+			vc := cases(ct.Args()[idx[0]], ct.Instr)
+			oc := cases(b.Args()[idx[1]], b.Instr)
+			ok := true
+			why := ""
+			for _, v := range vc {
+				for _, o := range oc {
+					both := core.And(v.Cond, o.Cond)
+					if len(both) == 0 {
+						continue
+					}
+					ve, oe := elemOf(v.V), c.O.Of(o.V).String()
+					if ve != oe {
+						ok = false
+						why = "variable is createVar(" + ve + ") while the operand given to build is " + oe + " under " + both.Describe(c.O)
+					}
+					isRev, isFwd := both.Implies(rev), both.Implies(nrev)
+					if !isRev && !isFwd {
+						ok = false
+						why = "the operand order is not chosen by Options.Reverse"
+					}
+					wantFwd := map[string]string{"left": "DstVar", "right": "SrcVar"}[side]
+					wantRev := map[string]string{"left": "SrcVar", "right": "DstVar"}[side]
+					if isFwd && !isRev {
+						seenFwd = true
+						if !strings.Contains(oe, wantFwd) {
+							ok = false
+							why = "without :reverse the " + side + " operand must be the method's " + wantFwd + ", got " + oe
+						}
+					}
+					if isRev && !isFwd {
+						seenRev = true
+						if !strings.Contains(oe, wantRev) {
+							ok = false
+							why = "under :reverse the " + side + " operand must be the method's " + wantRev + ", got " + oe
+						}
+					}
+				}
 			}
-			return "?" + t.String()
-		}
-		sides = append(sides, side{elem(l), elem(rr), c.O.Of(b.Args()[1]).String(), c.O.Of(b.Args()[2]).String()})
-		d := c.ReachOf(ctors[i].Instr)
-		revs = append(revs, d.Implies(c.M(true, isField(fldReverse))))
-		if !d.Implies(c.M(true, isField(fldReverse))) && !d.Implies(c.M(false, isField(fldReverse))) {
-			r.Check("C02-3", FnKey(cf)+":controlled", c.Pos(ctors[i].Pos()), false, "the operand order is not chosen by Options.Reverse")
+			r.Check("C02-3", sprintf("%s:builder%d:%s-pair", FnKey(cf), i+1, side), c.Pos(ct.Pos()), ok, why)
 		}
 	}
-	for i, s := range sides {
-		r.Check("C02-3", sprintf("%s:branch%d:left-pair", FnKey(cf), i+1), c.Pos(ctors[i].Pos()), s.lvar == s.lop, "left variable is createVar("+s.lvar+") but build's left operand is "+s.lop)
-		r.Check("C02-3", sprintf("%s:branch%d:right-pair", FnKey(cf), i+1), c.Pos(ctors[i].Pos()), s.rvar == s.rop, "right variable is createVar("+s.rvar+") but build's right operand is "+s.rop)
-	}
-	mirror := sides[0].lop == sides[1].rop && sides[0].rop == sides[1].lop && revs[0] != revs[1]
-	r.Check("C02-3", FnKey(cf)+":mirror", c.Pos(cf.Pos()), mirror, "the two sides of the Reverse test are not mirror images")
-	// non-reverse side: left = DstVar, right = SrcVar
-	for i, s := range sides {
-		if !revs[i] {
-			ok := strings.Contains(s.lop, "DstVar") && strings.Contains(s.rop, "SrcVar")
-			r.Check("C02-3", sprintf("%s:branch%d:direction", FnKey(cf), i+1), c.Pos(ctors[i].Pos()), ok, "without :reverse the left operand must be the method's destination and the right its source; got left="+s.lop+" right="+s.rop)
-		}
-	}
+	r.Check("C02-3", FnKey(cf)+":both-directions", c.Pos(cf.Pos()), seenRev && seenFwd, "expected the operand order to be decided for both values of Options.Reverse")
 }
